@@ -17,6 +17,10 @@ fn gen_token(r: &mut Rng, nonce: u64) -> String {
 
 fn gen_msg(r: &mut Rng) -> String {
     let base = *r.pick(&["bad thing", "", "nope: \"quoted\"", "ünïcödé 😀", "line\nbreak", "a/b\\c", "{\"json\":1}"]);
+    if r.chance(1, 12) {
+        // an empty message is a message too
+        return String::new();
+    }
     let mut m = format!("{}{}", base, r.range(0, 999));
     if r.chance(1, 6) {
         // a long message of multi-byte characters (0-3 bytes of ASCII first,
